@@ -32,6 +32,10 @@ type concRule struct {
 	afterID int
 	text    string
 	anyFail bool
+	// second: a conc block that directly follows the first one (no statement in between) and reads a local
+	// the first block assigned; 0 = none. secondSrc is the index of that member.
+	second    int
+	secondSrc int
 }
 
 type valRec struct {
@@ -156,6 +160,16 @@ func RunC18(k *fw.Case) {
 		}
 		b.WriteString("  conc {\n" + mb.String())
 		cr.afterID = cr.base + 99
+		if cr.reps == 1 && !cr.anyFail && r.Intn(3) == 0 {
+			for j, m := range cr.members {
+				if m.Cat == "assign-local" && !m.Fail {
+					cr.second, cr.secondSrc = cr.base+90, j
+					fmt.Fprintf(&b, "  }\n  conc {\n    sb2 = ev(%d, %s)\n", cr.second, m.Target)
+					fmt.Fprintf(&after, "  rv(%d, sb2)\n", cr.second)
+					break
+				}
+			}
+		}
 		if cr.reps > 1 {
 			fmt.Fprintf(&b, "  }\n%s  st(%d)\n  }\n  }\nend\n", after.String(), cr.afterID)
 		} else {
@@ -212,7 +226,11 @@ func runConcOnce(k *fw.Case, r *rand.Rand, rb *builder.RuleBuilder, obs *trace.O
 		if pick < 0 {
 			pick = r.Intn(len(cr.members))
 		}
-		lg.SetHold(cr.members[pick].ID, &trace.Hold{Forbid: map[int]bool{cr.afterID: true}, Delay: time.Duration(300+r.Intn(2000)) * time.Microsecond})
+		forbid := map[int]bool{cr.afterID: true}
+		if cr.second != 0 {
+			forbid[cr.second] = true
+		}
+		lg.SetHold(cr.members[pick].ID, &trace.Hold{Forbid: forbid, Delay: time.Duration(300+r.Intn(2000)) * time.Microsecond})
 		holds++
 	}
 	obs.Use(lg)
@@ -283,6 +301,24 @@ func runConcOnce(k *fw.Case, r *rand.Rand, rb *builder.RuleBuilder, obs *trace.O
 					k.Violate("visibility/"+m.Cat, fmt.Sprintf("the value assigned by `%s` was not read after the block", m.Text), det(cr))
 				} else if fmt.Sprint(got) != fmt.Sprint(want) {
 					k.Violate("visibility/"+m.Cat, fmt.Sprintf("`%s`: the statement after the block read %v, expected %d", m.Text, got, want), det(cr))
+				}
+			}
+		}
+		if cr.second != 0 {
+			k.Count("adjacent_second_blocks", 1)
+			src := cr.members[cr.secondSrc]
+			if n := len(pos[cr.second]); n != 1 {
+				k.Violate("second-block/count", fmt.Sprintf("the member of the conc block that directly follows another conc block ran %d times, expected 1", n), det(cr))
+			} else {
+				for _, m := range cr.members {
+					for _, q := range pos[m.ID] {
+						if q > pos[cr.second][0] {
+							k.Violate("second-block/join", fmt.Sprintf("a conc block that directly follows another one started its member (seq %d) before member `%s` of the first block had finished (seq %d)", pos[cr.second][0], m.Text, q), det(cr))
+						}
+					}
+				}
+				if got, ok := vals.get(int64(cr.second)); !ok || fmt.Sprint(got) != fmt.Sprint(src.Val) {
+					k.Violate("second-block/visibility", fmt.Sprintf("the second of two adjacent conc blocks read %s = %v (present=%v), the first block assigned %d", src.Target, got, ok, src.Val), det(cr))
 				}
 			}
 		}
